@@ -126,6 +126,73 @@ def seeded(names, tier="quick"):
     return 0
 
 
+def restart(props, n=60):
+    """Soft-restart fidelity: the observations of a self-contained suffix S executed after
+    `prefix + soft_restart` in ONE interpreter must equal those of S executed alone in a FRESH
+    interpreter (same provider).  Tests the assumption that soft_restart() leaves no library state
+    behind that a real process restart would have wiped."""
+    from . import rng as R
+    self_contained = {"C12": ("parse", "convert", "provider_switch", "soft_restart"),
+                      "C04": ("deliver", "isolate", "provider_switch", "soft_restart", "tzdb_view")}
+    bad = 0
+    for prop in props:
+        if prop not in self_contained:
+            continue
+        mod = engine.load_mod(prop)
+        cfg = dict(mod.TIERS["selftest"])
+        compared = differing = 0
+        soft_pool = engine.ServePool(prop)
+        i = 0
+        try:
+            while compared < n and i < 4000:
+                run = mod.generate(R.rng_for(777, prop, i), cfg)
+                i += 1
+                tr = run["trace"]
+                cut = [k for k, st in enumerate(tr) if st[1] == "soft_restart"]
+                if not cut or cut[-1] == 0 or cut[-1] == len(tr) - 1:
+                    continue
+                k = cut[-1]
+                prefix, suffix = tr[:k], [st for st in tr[k + 1:] if st[1] in self_contained[prop]]
+                if not suffix:
+                    continue
+                provider = run["cfg"]["provider"]
+                for st in prefix:
+                    if st[1] == "provider_switch":
+                        provider = st[2]["p"]
+                view = "default"
+                for st in prefix:
+                    if st[1] == "tzdb_view":
+                        view = st[2]["view"]
+                if view != "default":
+                    suffix = [["env", "tzdb_view", {"view": view}]] + suffix
+                soft_run = dict(run, trace=prefix + [tr[k]] + suffix)
+                hard_run = dict(run, cfg=dict(run["cfg"], provider=provider), trace=suffix)
+                a = soft_pool.execute(0, soft_run, with_obs=True)
+                hard_pool = engine.ServePool(prop)
+                try:
+                    b = hard_pool.execute(0, hard_run, with_obs=True)
+                finally:
+                    hard_pool.close()
+                if a.get("harness_error") or b.get("harness_error"):
+                    print(f"[selftest] restart {prop} run {i - 1}: harness error {a.get('harness_error') or b.get('harness_error')}")
+                    bad += 1
+                    continue
+                off = len(prefix) + 1
+                oa = [[o[0] - off, o[1], o[2]] for o in a["obs"] if o[0] >= off]
+                ob = b["obs"]
+                compared += 1
+                if oa != ob:
+                    differing += 1
+                    d = engine.first_diff(oa, ob)
+                    print(f"[selftest] restart {prop} run {i - 1}: soft and fresh interpreter differ: {str(d)[:500]}")
+        finally:
+            soft_pool.close()
+        print(f"[selftest] restart {prop}: {compared} suffixes compared, {differing} differ")
+        if differing or compared == 0:
+            bad += 1
+    return 1 if bad else 0
+
+
 def schema():
     try:
         import jsonschema
@@ -160,5 +227,7 @@ def main(argv):
         return seeded(props, tier)
     if what == "schema":
         return schema()
+    if what == "restart":
+        return restart(props or ["C12", "C04"])
     print(__doc__)
     return 2
